@@ -120,15 +120,16 @@ Qed.
 
 Section Decode.
 Variables (S : schema) (names : list (str * N)) (uris : list (str * N)) (kinds : list (N * N))
-          (globals : list (qn * qn)).
+          (globals : list (qn * qn)) (simple : list (qn * N)).
 Hypothesis Hschema : schema_ok S = true.
 Hypothesis Hnames : names_ok names = true.
 Hypothesis Hkinds : kinds_ok kinds = true.
 Hypothesis Hglobals : globals_ok S globals = true.
+Hypothesis Hsimple : simple_ok simple = true.
 
 Notation dec := (decode S names uris kinds globals false true).
-Notation refn := (ref_node S names uris kinds).
-Notation flg := (flags_node S names uris kinds).
+Notation refn := (ref_node S names uris kinds simple).
+Notation flg := (flags_node S names uris kinds simple).
 
 Definition kids_loop (env' : list frame) (elems : list fchild) :=
   fix go (ks : list elem) (data : list (str * pyval)) : dres (list (str * pyval)) :=
@@ -210,6 +211,17 @@ Lemma ref_node_unfold dt nillable u nm ats text kids :
         | _ => None
         end
     | Some (RC ct) =>
+        match simple_kind simple ct with
+        | Some k =>
+            match kids with
+            | [] => match spec_attrs S names kinds ct ats [] with
+                    | None => None
+                    | Some [] => Some (PLeaf (spec_tag k) text)
+                    | Some fields => Some (PProp nm ((s_value, PLeaf (spec_tag k) text) :: fields))
+                    end
+            | _ => None
+            end
+        | None =>
         if negb (all_space text) then None else
         match spec_attrs S names kinds ct ats [] with
         | None => None
@@ -218,6 +230,7 @@ Lemma ref_node_unfold dt nillable u nm ats text kids :
             | Some fields => Some (PObj (Some (c_ns ct, c_name ct)) fields)
             | None => None
             end
+        end
         end
     end.
 Proof. reflexivity. Qed.
@@ -245,12 +258,16 @@ Lemma flags_node_unfold dt nillable u nm ats text kids :
   | None => []
   | Some (RB k) => match text with [] => [6%N] | _ => [] end
   | Some (RC ct) =>
+      match simple_kind simple ct with
+      | Some _ => match text with [] => [6%N] | _ => [] end
+      | None =>
       match kids with
       | [] => match text with
               | [] => if no_real_attrs ats then [5%N] else []
               | _ => if all_space text then [2%N] else []
               end
       | _ => flags_kids ct [] kids
+      end
       end
   end.
 Proof. reflexivity. Qed.
@@ -484,6 +501,24 @@ Proof.
       apply (IH _ _ Hs). left. apply sset_nonempty.
 Qed.
 
+Lemma count_real_spec env ct : forall ats ias acc acc',
+  omap (erase_attr env) ats = Some ias ->
+  spec_attrs S names kinds ct ias acc = Some acc' ->
+  no_real_attrs ias = false -> count_real env ats <> O.
+Proof.
+  induction ats as [|a ats IH]; intros ias acc acc' H Hs Hn; cbn in H.
+  - inversion H; subst. discriminate Hn.
+  - destruct (erase_attr env a) as [ia|] eqn:Ea; [|discriminate].
+    destruct (omap (erase_attr env) ats) as [ias'|] eqn:Eo; [|discriminate].
+    inversion H; subst. cbn [spec_attrs] in Hs. cbn [count_real].
+    unfold no_real_attrs in Hn. cbn [forallb] in Hn.
+    destruct (is_xsi ia) eqn:Hx.
+    + rewrite (skip_xsi _ _ _ Ea Hx). cbn [andb] in Hn. now apply (IH ias' acc acc').
+    + pose proof (erase_attr_shape _ _ _ Ea) as [Hns _].
+      destruct (fst (fst ia)) as [u|] eqn:Eu; [destruct (snd ia); discriminate|].
+      unfold skip_attr. rewrite <- Hns. discriminate.
+Qed.
+
 (* ------------------------------------------------------------------ *)
 (* xsi:type                                                            *)
 (* ------------------------------------------------------------------ *)
@@ -625,9 +660,12 @@ Proof.
   destruct (spec_nil ats); [reflexivity|].
   destruct (actual_type S names uris dt ats) as [[k|ct]|]; [| |discriminate].
   - destruct kids; [|discriminate]. destruct (forallb is_xsi ats); discriminate.
-  - destruct (negb (all_space text)); [discriminate|].
-    destruct (spec_attrs S names kinds ct ats []); [|discriminate].
-    destruct (ref_kids ct kids l); discriminate.
+  - destruct (simple_kind simple ct).
+    + destruct kids; [|discriminate].
+      destruct (spec_attrs S names kinds ct ats []) as [[|f fs]|]; discriminate.
+    + destruct (negb (all_space text)); [discriminate|].
+      destruct (spec_attrs S names kinds ct ats []); [|discriminate].
+      destruct (ref_kids ct kids l); discriminate.
 Qed.
 
 Lemma ref_kids_nonempty ct : forall iks acc fields,
@@ -755,7 +793,27 @@ Proof.
       destruct txt as [[|c t]|]; try discriminate Hf.
       cbn [has_text negb andb Nat.eqb translate].
       rewrite (builtin_tags_match_statement_l _ Hrok). reflexivity.
-    + (* an object *)
+    + destruct (simple_kind simple ct) as [sk|] eqn:Esk.
+      { (* simple content *)
+        destruct iks; [|discriminate]. destruct ks; [|discriminate].
+        destruct (spec_attrs S names kinds ct ias []) as [acc0|] eqn:Esa; [|discriminate].
+        rewrite (add_attrs_spec _ _ _ _ _ _ Ea Esa). cbn [kids_loop dbind].
+        assert (Htag : spec_tag sk = tag_str).
+        { unfold simple_kind in Esk.
+          destruct (find (fun p => qn_eqb (fst p) (c_ns ct, c_name ct)) simple) as [pr|] eqn:Ef; [|discriminate].
+          inversion Esk; subst sk. apply find_some in Ef as [Hin _].
+          unfold simple_ok in Hsimple. rewrite forallb_forall in Hsimple. apply N.eqb_eq. exact (Hsimple _ Hin). }
+        destruct txt as [[|c t]|]; try discriminate Hf.
+        cbn [has_text negb andb].
+        destruct (no_real_attrs ias) eqn:Enr.
+        - destruct (add_attrs_all_xsi env' (RC ct) _ _ [] Ea Enr) as [Hadd Hcnt].
+          rewrite (add_attrs_spec _ _ _ _ _ _ Ea Esa) in Hadd. subst acc0. rewrite Hcnt.
+          cbn [Nat.eqb negb andb translate]. inversion Hr; subst v. now rewrite Htag.
+        - pose proof (count_real_spec _ _ _ _ _ _ Ea Esa Enr) as Hcnt.
+          pose proof (spec_attrs_nonempty _ _ _ _ Esa (or_intror Enr)) as Hne.
+          destruct (count_real env' ats); [congruence|]. cbn [Nat.eqb negb andb].
+          destruct acc0 as [|f0 fs]; [congruence|]. inversion Hr; subst v. now rewrite Htag. }
+      (* an object *)
       destruct (negb (all_space _)) eqn:Esp; [discriminate|]. apply negb_false_iff in Esp.
       destruct (spec_attrs S names kinds ct ias []) as [acc0|] eqn:Esa; [|discriminate].
       destruct (ref_kids ct iks acc0) as [fields|] eqn:Erk; [|discriminate].
